@@ -109,6 +109,15 @@ def big_runs():
                 ops.append({"op": "parse_record", "ct": ct, "ver": 771, "data": [{"lit": tail[2:], "fill": [0, 0, 0]}]})
                 ops.append({"op": "parse_record", "ct": 23, "ver": 771, "data": [{"lit": [1, 2, 3], "fill": [0, 0, 0]}]})
                 runs.append({"id": "big:%d:%d:%d" % (ct, total, frag), "ops": ops})
+    # a handshake header split over 2, 3 and 4 records, announcing 2^24 - 1 bytes: nothing beyond the bytes received is reserved
+    for cuts in ([1], [2], [3], [1, 2], [1, 2, 3], [1, 3]):
+        msg = [11, 255, 255, 255, 0, 1, 2]
+        pieces, prev = [], 0
+        for c in cuts + [len(msg)]:
+            pieces.append(msg[prev:c]); prev = c
+        runs.append({"id": "splithdr:%s" % "-".join(map(str, cuts)),
+                     "ops": [{"op": "parse_record", "ct": 22, "ver": 771, "data": [{"lit": pc, "fill": [0, 0, 0]}]} for pc in pieces]
+                            + [{"op": "parse_record", "ct": 22, "ver": 771, "data": [{"lit": [], "fill": [5, 1, 16384]}]}]})
     return runs
 
 
